@@ -245,13 +245,98 @@ Proof.
   - rewrite Hz. exact Es.
 Qed.
 
-Lemma national_class_iso e nd alphabet accepts :
-  national_class e nd alphabet (s2t "iso7064_mod97_10.DefaultAlgorithm") accepts = Some (mk accepts (iso_compute alphabet) None).
-Proof. reflexivity. Qed.
+(* ---- comparing a formatted two-digit value with two given digits --------------------------------- *)
 
-(* ---- the theorem for one country of the ISO 7064 mod 97-10 family -------------------------------- *)
+Lemma fmt2_eq v d1 d2 :
+  (0 <= v <= 99)%Z -> is_ascii_digit d1 = true -> is_ascii_digit d2 = true ->
+  text_eqb (fmt0d 2 v) [d1; d2] = Z.eqb (Z.of_N (d1 - 48) * 10 + Z.of_N (d2 - 48)) v.
+Proof.
+  intros Hv D1 D2. rewrite two_digits_fmt by exact Hv.
+  set (dd := (Z.of_N (d1 - 48) * 10 + Z.of_N (d2 - 48))%Z).
+  assert (Hdd : (0 <= dd <= 99)%Z) by (unfold dd; unfold is_ascii_digit, c0, c9 in D1, D2; lia).
+  destruct (Z.eqb_spec dd v) as [<-|Hne].
+  - unfold dd. rewrite (two_digits_inv d1 d2 D1 D2). apply text_eqb_refl.
+  - destruct (text_eqb (two_digits v) [d1; d2]) eqn:E; [|reflexivity]. exfalso. apply Hne.
+    apply text_eqb_eq in E. rewrite <- (two_digits_inv d1 d2 D1 D2) in E. fold dd in E.
+    destruct (two_digits_digits dd Hdd) as (x1 & x2 & Hx & _ & _ & Hxv).
+    destruct (two_digits_digits v Hv) as (y1 & y2 & Hy & _ & _ & Hyv).
+    rewrite Hx, Hy in E. inversion E; subst. lia.
+Qed.
 
-Section IsoCountry.
+Lemma dec_app a b : dec (a ++ b) = fold_left (fun acc c => (acc * 10 + dv c)%Z) b (dec a).
+Proof. unfold dec. apply fold_left_app. Qed.
+
+Lemma dec_app2 a d1 d2 : dec (a ++ [d1; d2]) = (dec a * 100 + (dv d1 * 10 + dv d2))%Z.
+Proof. rewrite dec_app. cbn [fold_left]. lia. Qed.
+
+Lemma digits_alpha s : forallb is_ascii_digit s = true -> forallb in_alpha s = true.
+Proof.
+  rewrite !forallb_forall. intros H c Hc. unfold in_alpha. rewrite (H c Hc). reflexivity.
+Qed.
+
+Lemma sl_key body d1 d2 :
+  sl (List.length (body ++ [d1; d2]) - 2) (List.length (body ++ [d1; d2])) (body ++ [d1; d2]) = [d1; d2].
+Proof.
+  assert (Hn : List.length (body ++ [d1; d2]) - 2 = List.length body) by (rewrite app_length; simpl; lia).
+  unfold sl. rewrite Hn. replace (List.length (body ++ [d1; d2]) - List.length body) with 2 by (rewrite app_length; simpl; lia).
+  rewrite skipn_app, skipn_all, Nat.sub_diag. reflexivity.
+Qed.
+
+(* ---- RIB key, numeric: Mauritania, Tunisia ------------------------------------------------------- *)
+
+Section Families.
+Variable cfg : iban_cfg.
+Hypothesis ALPHA : ic_alphabet cfg = std_alphabet.
+
+Lemma variant_default_validate cs body d1 d2 :
+  concat_text cs = body -> body <> [] -> forallb is_ascii_digit body = true ->
+  is_ascii_digit d1 = true -> is_ascii_digit d2 = true ->
+  default_validate (variant_compute (ic_alphabet cfg)) cs [d1; d2] = Ok (pub_rib_numeric (body ++ [d1; d2])).
+Proof using ALPHA.
+  intros Hcs Hne Hd D1 D2. unfold default_validate, variant_compute, iso_family, pre_default.
+  rewrite Hcs, numerify_same, (numerify_nonempty cfg ALPHA _ Hne), (digits_alpha _ Hd). cbn [bind].
+  rewrite (iso_num_digits _ Hd). set (M := dec body). f_equal.
+  assert (Hv : (0 <= 97 - (M * 100) mod 97 <= 99)%Z) by lia.
+  rewrite (fmt2_eq _ d1 d2 Hv D1 D2).
+  unfold pub_rib_numeric. rewrite sl_key, dec_app2. fold M.
+  rewrite (dec_two [d1; d2] d1 d2 eq_refl). unfold dv.
+  set (dd := (Z.of_N (d1 - 48) * 10 + Z.of_N (d2 - 48))%Z).
+  assert (Hdd : (0 <= dd <= 99)%Z) by (unfold dd; unfold is_ascii_digit, c0, c9 in D1, D2; lia).
+  destruct (Z.eqb_spec dd (97 - (M * 100) mod 97)) as [He|Hne'].
+  - symmetry. replace ((M * 100 + dd) mod 97 =? 0)%Z with true by lia. cbn [andb]. lia.
+  - symmetry. apply not_true_iff_false. intro Hp.
+    apply andb_true_iff in Hp as [Hp H97]. apply andb_true_iff in Hp as [Hm H1]. lia.
+Qed.
+
+(* ---- Belgium -------------------------------------------------------------------------------------- *)
+
+Lemma be_default_validate cs body d1 d2 :
+  concat_text cs = body -> List.length body = 10 -> forallb is_ascii_digit body = true ->
+  is_ascii_digit d1 = true -> is_ascii_digit d2 = true ->
+  default_validate (be_compute (ic_alphabet cfg)) cs [d1; d2] = Ok (pub_be (body ++ [d1; d2])).
+Proof using ALPHA.
+  intros Hcs Hlen Hd D1 D2. unfold default_validate, be_compute, iso_family, pre_default.
+  assert (Hne : body <> []) by (destruct body; [discriminate|congruence]).
+  rewrite Hcs, numerify_same, (numerify_nonempty cfg ALPHA _ Hne), (digits_alpha _ Hd). cbn [bind].
+  rewrite (iso_num_digits _ Hd). set (M := dec body). f_equal.
+  replace ((M * 100) / 100)%Z with M by lia.
+  set (v := (if (M mod 97 =? 0)%Z then 97 else M mod 97)%Z).
+  assert (Hv : (0 <= v <= 99)%Z) by (unfold v; destruct (M mod 97 =? 0)%Z eqn:E; lia).
+  rewrite (fmt2_eq _ d1 d2 Hv D1 D2).
+  assert (H1 : sl 0 10 (body ++ [d1; d2]) = body).
+  { unfold sl. cbn [skipn]. replace (10 - 0) with (List.length body) by lia.
+    rewrite firstn_app, firstn_all, Nat.sub_diag. cbn [firstn]. apply app_nil_r. }
+  assert (H2 : sl 10 12 (body ++ [d1; d2]) = [d1; d2]).
+  { unfold sl. change (12 - 10) with 2. rewrite <- Hlen.
+    rewrite skipn_app, skipn_all, Nat.sub_diag. reflexivity. }
+  unfold pub_be. rewrite H1, H2. fold M. rewrite (dec_two [d1; d2] d1 d2 eq_refl). unfold dv. fold v. reflexivity.
+Qed.
+
+End Families.
+
+(* ---- the theorem for one country whose algorithm reads a prefix of the BBAN and compares two check digits ---- *)
+
+Section FamilyCountry.
 Variable e : env.
 Variable cfg : iban_cfg.
 Variable T : table.
@@ -271,27 +356,63 @@ Definition registered_as (cc : text) (cls : string) : option (list text) :=
   | None => None
   end.
 
-Theorem iso97_country cc r accepts b :
+Theorem family_country (cls : string) (compute : list text -> outcome text) (pub : text -> bool)
+                       (bodyP : text -> Prop) cc r accepts b :
+  (forall acc, national_class e nd (ic_alphabet cfg) (s2t cls) acc = Some (mk acc compute None)) ->
+  (forall cs body d1 d2, concat_text cs = body -> bodyP body ->
+     is_ascii_digit d1 = true -> is_ascii_digit d2 = true ->
+     default_validate compute cs [d1; d2] = Ok (pub (body ++ [d1; d2]))) ->
+  (forall body d1 d2, b = body ++ [d1; d2] -> body <> [] -> forallb in_alpha body = true -> bodyP body) ->
   text_eqb cc (tx "DE") = false ->
   find_row T cc = Some r -> conforms_row r b = true ->
-  registered_as cc "iso7064_mod97_10.DefaultAlgorithm" = Some accepts ->
+  registered_as cc cls = Some accepts ->
   layout_prefix r accepts 2 = true -> ends_with_two_digits r = true ->
   validate_national T the_find_algo (bank_code_entries R) cc b =
-  if pub_iso97 b then Ok true else Err EInvalidBBANChecksum.
+  if pub b then Ok true else Err EInvalidBBANChecksum.
 Proof using TAB ALPHA ONLYDE.
-  intros Hde Er Hc Hreg Hlay Hend.
+  intros Hcls Hval HbodyP Hde Er Hc Hreg Hlay Hend.
   rewrite (validate_national_default T the_find_algo R ONLYDE cc r b Hde Er).
   unfold the_find_algo, find_algo. unfold registered_as in Hreg.
-  destruct (assoc (cc ++ [58%N] ++ k_default) registered) as [[cls acc]|]; [|discriminate].
-  destruct (text_eqb cls (s2t "iso7064_mod97_10.DefaultAlgorithm")) eqn:Ecls; [|discriminate].
-  inversion Hreg; subst acc. apply text_eqb_eq in Ecls. subst cls.
-  rewrite national_class_iso.
+  destruct (assoc (cc ++ [58%N] ++ k_default) registered) as [[c acc]|]; [|discriminate].
+  destruct (text_eqb c (s2t cls)) eqn:Ecls; [|discriminate].
+  inversion Hreg; subst acc. apply text_eqb_eq in Ecls. subst c.
+  rewrite Hcls.
   destruct (split_body_key cfg T TAB cc r b Er Hc Hend) as (body & d1 & d2 & Hb & Hne & Hal & D1 & D2 & Hl & Hf & Hs).
   destruct (layout_slices r accepts 2 b Hlay Hl) as [Hcomps Hnat].
   cbv zeta in Hnat. cbn [al_validate al_accepts mk].
   rewrite Hnat, Hs.
-  rewrite (iso_default_validate cfg ALPHA _ body d1 d2) by (first [assumption | (etransitivity; [exact Hcomps|exact Hf])]).
+  rewrite (Hval _ body d1 d2) by (first [assumption | (etransitivity; [exact Hcomps|exact Hf]) | (apply (HbodyP body d1 d2); assumption)]).
   cbn [bind]. rewrite <- Hb. reflexivity.
 Qed.
 
-End IsoCountry.
+End FamilyCountry.
+
+Lemma national_class_iso e nd alphabet accepts :
+  national_class e nd alphabet (s2t "iso7064_mod97_10.DefaultAlgorithm") accepts = Some (mk accepts (iso_compute alphabet) None).
+Proof. reflexivity. Qed.
+Lemma national_class_variant e nd alphabet accepts :
+  national_class e nd alphabet (s2t "iso7064_mod97_10_variant.DefaultAlgorithm") accepts = Some (mk accepts (variant_compute alphabet) None).
+Proof. reflexivity. Qed.
+Lemma national_class_be e nd alphabet accepts :
+  national_class e nd alphabet (s2t "belgium.DefaultAlgorithm") accepts = Some (mk accepts (be_compute alphabet) None).
+Proof. reflexivity. Qed.
+
+(* a conforming BBAN of an all-numeric structure consists of ASCII digits *)
+Definition all_numeric (r : row) : bool :=
+  match row_kinds r with Some kds => forallb (fun k => match k with Kn => true | _ => false end) kds | None => false end.
+
+Lemma conforms_numeric kds : forall b,
+  forallb (fun k => match k with Kn => true | _ => false end) kds = true -> conforms kds b = true ->
+  forallb is_ascii_digit b = true.
+Proof.
+  induction kds as [|k kds IH]; intros [|c b] Hk Hc; cbn in *; try reflexivity; try discriminate.
+  apply andb_true_iff in Hk as [Hk1 Hk2]. apply andb_true_iff in Hc as [Hc1 Hc2].
+  destruct k; try discriminate. cbn [kind_ok] in Hc1. rewrite Hc1. cbn [andb]. apply IH; assumption.
+Qed.
+
+Lemma numeric_row_digits r b :
+  all_numeric r = true -> conforms_row r b = true -> forallb is_ascii_digit b = true.
+Proof.
+  unfold all_numeric, conforms_row. destruct (row_kinds r) as [kds|]; [|discriminate].
+  intros Hn Hc. apply andb_true_iff in Hc as [_ Hc]. eapply conforms_numeric; eassumption.
+Qed.
